@@ -17,9 +17,9 @@ mv marwood/tests/seeded_demo.rs /tmp/seedlogs/$NAME.demo.rs 2>/dev/null
 SUITE_WITH=$(cargo test --workspace --no-fail-fast --offline 2>&1 | grep -E "^test result" | awk '{p+=$4; f+=$6} END {print p" passed "f" failed"}')
 cp /tmp/seedlogs/$NAME.demo.rs marwood/tests/seeded_demo.rs 2>/dev/null
 DEMO_WITH=$(cargo test --offline -p marwood --test seeded_demo 2>&1 | grep -E "^test result" | tail -1)
-git stash -q -- marwood/src marwood-repl/src marwood-wasm/src 2>/dev/null
+git apply -R SEED/patch.diff
 DEMO_WITHOUT=$(cargo test --offline -p marwood --test seeded_demo 2>&1 | grep -E "^test result" | tail -1)
-git stash pop -q 2>/dev/null
+git apply SEED/patch.diff
 cd /verif
 RES=""
 git -C /repo apply $OUT/patch.diff || { echo "PATCH DOES NOT APPLY to /repo"; exit 3; }
